@@ -80,31 +80,66 @@ def run_one(pid, name, m, tier="quick", seed="1", extra_env=None):
 
 
 def main():
+    """tools/mutate.py [IDs | --all] [--only=substr] [--thorough] [--seeds=1,2,3] [--jobs=N]
+
+    Every (mutant, seed) pair is one task; a mutant counts as killed only if it is killed at every seed."""
+    from concurrent.futures import ThreadPoolExecutor
     args = [a for a in sys.argv[1:] if not a.startswith("--")]
     tier = "thorough" if "--thorough" in sys.argv else "quick"
     if "--all" in sys.argv:
         args = sorted(set([os.path.basename(f)[:-5] for f in glob.glob(os.path.join(HERE, "mutants", "C*.json"))]
                           + [os.path.basename(d) for d in glob.glob(os.path.join(HERE, "seeded", "C*"))]))
-    only = None
+    only, seeds, jobs = None, [os.environ.get("VERIF_SEED", "1")], 1
     for a in sys.argv[1:]:
         if a.startswith("--only="):
             only = a[7:]
+        if a.startswith("--seeds="):
+            seeds = a[8:].split(",")
+        if a.startswith("--jobs="):
+            jobs = int(a[7:])
     spath = os.path.join(HERE, "sensitivity.json")
-    sens = json.load(open(spath)) if os.path.exists(spath) else {}
     before = set(os.listdir(os.path.join(HERE, "replays"))) if os.path.isdir(os.path.join(HERE, "replays")) else set()
+    tasks = []
     for pid in args:
         for name, m in mutants_of(pid):
             if only and only not in name:
                 continue
-            res = run_one(pid, name, m, tier)
-            res["what"] = m.get("what", "")
-            if m.get("equivalent") and res["status"] == "survived":
-                res["status"] = "equivalent"
-            sens.setdefault(pid, {})[name] = res
-            print("%s %-45s %-9s %5.1fs %s" % (pid, name, res["status"], res.get("wall_s", 0),
-                                               (res.get("violations") or [res.get("tail", "")[-200:]])[0][:150]))
+            for sd in seeds:
+                tasks.append((pid, name, m, sd))
+
+    def work(t):
+        pid, name, m, sd = t
+        return t, run_one(pid, name, m, tier, seed=sd)
+    results = {}
+    with ThreadPoolExecutor(max_workers=jobs) as ex:
+        for (pid, name, m, sd), res in ex.map(work, tasks):
+            results.setdefault((pid, name), []).append((sd, res, m))
+            print("%s %-45s seed=%-3s %-9s %5.1fs %s" % (pid, name, sd, res["status"], res.get("wall_s", 0),
+                                                        (res.get("violations") or [res.get("tail", "")[-200:]])[0][:140]))
             sys.stdout.flush()
+    sens = json.load(open(spath)) if os.path.exists(spath) else {}
+    for (pid, name), lst in sorted(results.items()):
+        m = lst[0][2]
+        killed = [sd for sd, r, _ in lst if r["status"] == "killed"]
+        first = next((r for sd, r, _ in lst if r["status"] == "killed"), lst[0][1])
+        res = dict(first)
+        res["seeds"] = [sd for sd, _, _ in lst]
+        res["killed_at_seeds"] = killed
+        if len(killed) == len(lst):
+            res["status"] = "killed"
+        elif all(r["status"] in ("no-unique-match", "patch-failed") for _, r, _ in lst):
+            res["status"] = lst[0][1]["status"]
+        elif killed:
+            res["status"] = "killed %d/%d" % (len(killed), len(lst))
+        else:
+            res["status"] = "survived"
+        res["what"] = m.get("what", "")
+        if m.get("equivalent") and not killed:
+            res["status"] = "equivalent"
+        sens.setdefault(pid, {})[name] = res
     json.dump(sens, open(spath, "w"), indent=1, sort_keys=True)
+    bad = [(k, v["status"]) for p in sens for k, v in sens[p].items() if v["status"] not in ("killed", "equivalent")]
+    print("not killed at every seed:", bad)
     # remove replay files produced against mutants
     rd = os.path.join(HERE, "replays")
     if os.path.isdir(rd):
